@@ -10,13 +10,13 @@ Definition tpl_atom_contains_all : list string := ["%s_check"; "containsAll"; "#
 "; "    original := %s_array[_]
 "; "    mapped := as_string(original)
 }
-"; "%s = { ""%s""}"; ""","""; "count(%s - %s_string_set) == 0"; "count(%s - %s_string_set) != 0"; "%s_quoted = [concat("""", [""\"""", res, ""\""""]) |  res := %s_string_set[_]]"; "%s_string = concat("""", [""["", concat("", "",%s_quoted), ""]""])"; """negated"":%t,""actual"": %s,""expected"": ""%s"""; "%s_string"].
-Definition tpl_atom_in : list string := ["inValues"; "%s_check"; "#  querying path: "; "%s_array = %s with data.sourceNode as %s"; "%s_scalar = %s_array[_]"; "%s = as_string(%s_scalar)"; "%s = { ""%s""}"; ""","""; "%s[%s]"; "not %s[%s]"; """negated"":%t,""actual"": %s,""expected"": ""%s"""; """"; "'"].
+"; "%s = { %s}"; "count(%s - %s_string_set) == 0"; "count(%s - %s_string_set) != 0"; "%s_quoted = [concat("""", [""\"""", res, ""\""""]) |  res := %s_string_set[_]]"; "%s_string = concat("""", [""["", concat("", "",%s_quoted), ""]""])"; """negated"":%t,""actual"": %s,""expected"": ""%s"""; "%s_string"].
+Definition tpl_atom_in : list string := ["inValues"; "%s_check"; "#  querying path: "; "%s_array = %s with data.sourceNode as %s"; "%s_scalar = %s_array[_]"; "%s = as_string(%s_scalar)"; "%s = { %s}"; "%s[%s]"; "not %s[%s]"; """negated"":%t,""actual"": %s,""expected"": ""%s"""; """"; "'"].
 Definition tpl_atom_contains_some : list string := ["%s_check"; "containsSome"; "#  querying path: "; "%s_array = %s with data.sourceNode as %s"; "count(%s_array) != 0 # validation applies if property was defined"; "%s_string_set = { mapped |
 "; "    original := %s_array[_]
 "; "    mapped := as_string(original)
 }
-"; "%s = { ""%s""}"; ""","""; "count(%s - %s_string_set) != count(%s)"; "count(%s - %s_string_set) == count(%s)"; "%s_quoted = [concat("""", [""\"""", res, ""\""""]) |  res := %s_string_set[_]]"; "%s_string = concat("""", [""["", concat("", "",%s_quoted), ""]""])"; """negated"":%t,""actual"": %s,""expected"": ""%s"""; "%s_string"].
+"; "%s = { %s}"; "count(%s - %s_string_set) != count(%s)"; "count(%s - %s_string_set) == count(%s)"; "%s_quoted = [concat("""", [""\"""", res, ""\""""]) |  res := %s_string_set[_]]"; "%s_string = concat("""", [""["", concat("", "",%s_quoted), ""]""])"; """negated"":%t,""actual"": %s,""expected"": ""%s"""; "%s_string"].
 Definition tpl_atom_numeric : list string := ["minimumInclusive"; ">="; "minimumExclusive"; ">"; "maximumExclusive"; "<"; "maximumInclusive"; "<="; "cannot generate unknown numeric constraint: %v"; "#  querying path: "; "numeric_comparison"; "%s_elem = %s with data.sourceNode as %s"; "%s = %s_elem[_]"; "%s %s %d"; "%s %s %f"; "not %s %s %d"; "not %s %s %f"; """negated"":%t,""condition"":""%s"",""expected"":%s,""actual"":%s"].
 Definition tpl_atom_property_comparison : list string := ["#  querying path: "; "%sA"; "%ss = %s with data.sourceNode as %s"; "#  querying path: "; "%sB"; "%ss = %s with data.sourceNode as %s"; "%s = %ss[_]"; "%s = %ss[_]"; "%s %s %s"; "not %s %s %s"; """negated"":%t, ""condition"":""%s"",""expected"":%s, ""actual"":%s, ""altPath"": ""%s"""].
 Definition tpl_atom_datatype : list string := ["#  querying path: "; "datatype_check"; "%s_elem = %s with data.sourceNode as %s"; "%s = %s_elem[_]"; "check_datatype(%s,""%s"")"; "not check_datatype(%s,""%s"")"; "datatype"; """negated"":%t,""actual"": %s,""expected"": ""%s"""].
@@ -37,6 +37,10 @@ Definition tpl_expression : list string := ["nested expressions cannot be genera
 
 "; "# Path rules"; "# Constraint rules"; "
 
-"; "_result_%d"; "  %s := trace(""%s"",""%s"",%s,%s)"; "$message"; "$message"; "message"; "  "; "msg_var_%d"; "  %s := object.get(%s, ""%s"", ""null"")"; "  message_vars := [%s]"; ","; "  message := sprintf(""%s"", message_vars)"; "  message := ""%s"""; "  %s := error(""%s"",%s, message ,[%s])"; ","; "
-"; "\n"; """"; "'"].
+"; "_result_%d"; "  %s := trace(""%s"",""%s"",%s,%s)"; "$message"; "$message"; "message"; "  "; "msg_var_%d"; "  %s := object.get(%s, ""%s"", ""null"")"; "  message_vars := [%s]"; ","; "  message := sprintf(""%s"", message_vars)"; "  message := ""%s"""; "  %s := error(""%s"",%s, message ,[%s])"; ","; """"; "'"].
+Definition tpl_quote : list string := ["\\"; "\"""; "\n"; "\r"; "\t"; "\u%04x"; """"; """"; ","; "["; "]"].
+Definition tpl_quote_all_literals : list string := ["'\\'"; "`\\`"; "'""'"; "`\""`"; "'\n'"; "`\n`"; "'\r'"; "`\r`"; "'\t'"; "`\t`"; "0x20"; "0x7f"; "`\u%04x`"].
+Definition tpl_message : list string := ["\{\{\s*([\w-]+\.[\w-]+)\s*}}"; "%"; "%%"; "%v"; "%"; "%%"].
+Definition tpl_names : list string := ["package %s
+"; "[^a-zA-Z0-9]+"; "_"; "profile_%s"; "report[""profile""] = ""%s"""].
 Definition preamble_sha256 : string := "9cc3607a66284b61b0aec492dfedbd7b302ea5e6abae9eece6426f4e31ed04ad".
